@@ -1,4 +1,5 @@
 """C21 - PYPOWER/MATPOWER conversion round trip preserves power flow results (DESIGN.md sec. 2, C21)."""
+import copy
 import math
 import os
 import shutil
@@ -30,11 +31,13 @@ ASSUMPTIONS = ["scope as stated by the property: trafo_model='pi' on both sides,
                "tolerances: vm 1e-8 p.u., va 1e-6 degree, powers 1e-5 MVA*max(1,sn/100) + 1e-7 relative; solver tolerance scaled with sn_mva",
                "per-machine Q at one node is not unique: slack/PV powers are compared as sums per electrical reference node"]
 
-PROFILE = netgen.profile(
+_KW = dict(
     bus_kinds={"load": 5, "sgen": 3, "gen": 3, "storage": 1, "shunt": 2, "ward": 1, "xward": 0, "motor": 1,
                "asymmetric_load": 0, "asymmetric_sgen": 0},
     branch_kinds={"line": 8, "impedance": 1, "bb": 2},
-    oos=0.10, open_prob=0.4, dcline=False, leakage=False, custom_index=True, noslack_island=True)
+    oos=0.06, open_prob=0.4, dcline=False, leakage=False, custom_index=True, noslack_island=True)
+PROFILE = netgen.profile(line_g=False, **_KW)      # majority: avoids the known line-conductance shape by construction
+PROFILE_G = netgen.profile(line_g=True, **_KW)     # minority: lines with g_us_per_km
 
 ASYM_KEYS = ("rtf_pu", "xtf_pu", "gt_pu", "bt_pu")
 
@@ -50,13 +53,14 @@ def in_scope(recipe):
 
 @st.composite
 def _case(draw, tier):
-    recipe = in_scope(draw(netgen.grid(PROFILE)))
+    with_g = draw(st.integers(0, 5)) == 0
+    recipe = in_scope(draw(netgen.grid(PROFILE_G if with_g else PROFILE)))
     # make nominal-ratio transformers (ppc TAP == 1, SHIFT == 0: the converter's third branch class) frequent enough
     if draw(st.integers(0, 3)) == 0:
         for e in recipe["el"]:
             if e["t"] == "trafo" and e.get("shift_degree", 0.0) == 0.0:
-                vh = max(b["vn_kv"] for b in recipe["buses"] if b["vn_kv"] <= e["vn_hv_kv"] * 1.04 and b["vn_kv"] >= e["vn_hv_kv"] * 0.96)
-                vl = max(b["vn_kv"] for b in recipe["buses"] if b["vn_kv"] <= e["vn_lv_kv"] * 1.04 and b["vn_kv"] >= e["vn_lv_kv"] * 0.94)
+                vh = recipe["buses"][e["hv_bus"]]["vn_kv"]
+                vl = recipe["buses"][e["lv_bus"]]["vn_kv"]
                 e["vn_hv_kv"], e["vn_lv_kv"] = vh, vl
                 for k in [k for k in e if k.startswith("tap_")]:
                     del e[k]
@@ -69,27 +73,6 @@ def _case(draw, tier):
 
 def strategy(tier):
     return _case(tier)
-
-
-def _strip_g(recipe):
-    """the MATPOWER case format has no branch conductance column: variant of the recipe without line g / iron losses"""
-    import copy
-    r = copy.deepcopy(recipe)
-    for e in r["el"]:
-        if e["t"] == "line":
-            e.pop("g_us_per_km", None)
-        elif e["t"] in ("trafo", "trafo3w"):
-            e["pfe_kw"] = 0.0
-    return r
-
-
-def has_branch_g(recipe):
-    for e in recipe["el"]:
-        if e["t"] == "line" and e.get("g_us_per_km", 0.0):
-            return True
-        if e["t"] in ("trafo", "trafo3w") and e.get("pfe_kw", 0.0):
-            return True
-    return False
 
 
 def run_orig(net, opt, sn):
@@ -129,65 +112,67 @@ def ref_nodes(net):
     return node, out
 
 
-def compare(res, path, net, lookup, n_ppci, net2, sn, feats):
-    """the oracle: net = solved original, lookup = pandapower bus -> ppc bus of the conversion, net2 = solved converted net"""
+def compare(net, lookup, n_ppci, net2, sn):
+    """the oracle: net = solved original, lookup = pandapower bus -> ppc bus of the conversion, net2 = solved converted net.
+    Returns (list of (kind, detail), number of compared buses, bus mapping)"""
+    fails = []
     ptol = 1e-5 * max(1.0, sn / 100.0)
-    cls = "+".join(sorted(feats)) or "plain"
     n_cmp = 0
     mapped = {}
     for b in net.bus.index:
         vm = net.res_bus.at[b, "vm_pu"]
         if math.isnan(vm):
             continue
-        j = int(lookup[b]) if b < len(lookup) else -1
+        j = int(lookup[b]) if 0 <= b < len(lookup) else -1
         if j < 0 or j >= n_ppci or j not in net2.bus.index:
-            res.fail("%s/supplied-bus-without-counterpart" % path, bus=b, ppc_bus=j, n_ppc_buses=n_ppci)
+            fails.append(("supplied-bus-without-counterpart", dict(bus=b, ppc_bus=j, n_ppc_buses=n_ppci)))
             continue
         mapped[b] = j
         vm2, va2 = net2.res_bus.at[j, "vm_pu"], net2.res_bus.at[j, "va_degree"]
         va = net.res_bus.at[b, "va_degree"]
         n_cmp += 1
         if math.isnan(vm2) or abs(vm - vm2) > 1e-8:
-            res.fail("%s/vm/%s" % (path, cls), bus=b, ppc_bus=j, vm=vm, vm_converted=vm2, diff=abs(vm - vm2))
+            fails.append(("vm", dict(bus=b, ppc_bus=j, vm=vm, vm_converted=vm2, diff=abs(vm - vm2))))
         elif abs((va - va2 + 180.0) % 360.0 - 180.0) > 1e-6:
-            res.fail("%s/va/%s" % (path, cls), bus=b, ppc_bus=j, va=va, va_converted=va2)
+            fails.append(("va", dict(bus=b, ppc_bus=j, va=va, va_converted=va2)))
     # slack powers: per reference node, sum over the voltage-controlling machines of the node
     node, refs = ref_nodes(net)
     node2 = oracles.fused_nodes(net2)
+    gl = net2._from_ppc_lookups["gen"]
+    conv_machines = [(t, int(i)) for t, i in zip(gl.element_type.values, gl.element.values) if t]
     for n, machines in sorted(refs.items()):
         if n not in mapped:
             continue   # unsupplied reference (out-of-service bus)
         s1 = sum(complex(_nz(net["res_" + t].at[i, "p_mw"]), _nz(net["res_" + t].at[i, "q_mvar"])) for t, i in machines)
         j = mapped[n]
         s2 = 0j
-        gl = net2._from_ppc_lookups["gen"]
-        for t, i in zip(gl.element_type.values, gl.element.values):
-            if t and node2[net2[t].at[int(i), "bus"]] == node2[j] and net2[t].at[int(i), "in_service"]:
-                s2 += complex(_nz(net2["res_" + t].at[int(i), "p_mw"]), _nz(net2["res_" + t].at[int(i), "q_mvar"]))
-        if not any(t == "ext_grid" and net2.ext_grid.at[int(i), "bus"] == j for t, i in zip(gl.element_type.values, gl.element.values)):
-            res.fail("%s/reference-not-converted-to-ext_grid" % path, node=n, ppc_bus=j)
+        for t, i in conv_machines:
+            if node2[net2[t].at[i, "bus"]] == node2[j] and net2[t].at[i, "in_service"]:
+                s2 += complex(_nz(net2["res_" + t].at[i, "p_mw"]), _nz(net2["res_" + t].at[i, "q_mvar"]))
+        if not any(t == "ext_grid" and net2.ext_grid.at[i, "bus"] == j for t, i in conv_machines):
+            fails.append(("reference-not-converted-to-ext_grid", dict(node=n, ppc_bus=j)))
         tol = ptol + 1e-7 * abs(s1)
         if abs(s1.real - s2.real) > tol:
-            res.fail("%s/slack-p/%s" % (path, cls), node=n, p=s1.real, p_converted=s2.real)
+            fails.append(("slack-p", dict(node=n, p=s1.real, p_converted=s2.real)))
         if abs(s1.imag - s2.imag) > tol:
-            res.fail("%s/slack-q/%s" % (path, cls), node=n, q=s1.imag, q_converted=s2.imag)
+            fails.append(("slack-q", dict(node=n, q=s1.imag, q_converted=s2.imag)))
     # total losses = generation - consumption = -(sum of the bus balances), P and Q
     l1 = -complex(net.res_bus.p_mw.sum(), net.res_bus.q_mvar.sum())
     l2 = -complex(net2.res_bus.p_mw.sum(), net2.res_bus.q_mvar.sum())
     scale = float(net.res_bus.p_mw.abs().sum() + net.res_bus.q_mvar.abs().sum())
     tol = ptol + 1e-7 * scale
     if abs(l1.real - l2.real) > tol:
-        res.fail("%s/losses-p/%s" % (path, cls), losses=l1.real, losses_converted=l2.real)
+        fails.append(("losses-p", dict(losses=l1.real, losses_converted=l2.real)))
     if abs(l1.imag - l2.imag) > tol:
-        res.fail("%s/losses-q/%s" % (path, cls), losses=l1.imag, losses_converted=l2.imag)
+        fails.append(("losses-q", dict(losses=l1.imag, losses_converted=l2.imag)))
     # ... and as a user reads them: sum of pl_mw over the branch result tables
     pl1 = sum(_nz(v) for t in ("line", "trafo", "trafo3w", "impedance") for v in net["res_" + t].pl_mw.values)
     if len(net.res_switch) and "p_from_mw" in net.res_switch:
         pl1 += sum(_nz(a) + _nz(b) for a, b in zip(net.res_switch.p_from_mw.values, net.res_switch.p_to_mw.values))
     pl2 = sum(_nz(v) for t in ("line", "trafo", "impedance") for v in net2["res_" + t].pl_mw.values)
     if abs(pl1 - pl2) > tol:
-        res.fail("%s/branch-pl-sum/%s" % (path, cls), pl=pl1, pl_converted=pl2)
-    return n_cmp, mapped
+        fails.append(("branch-pl-sum", dict(pl=pl1, pl_converted=pl2)))
+    return fails, n_cmp, mapped
 
 
 def features(net):
@@ -218,87 +203,166 @@ def features(net):
     return f
 
 
-def solve_original(res, recipe, opt, sn):
-    """build + solve; returns the solved net or None (res.skipped / res.fail set)"""
-    net, _ = netgen.build(recipe)
-    try:
-        run_orig(net, opt, sn)
-    except Exception as e:
-        kind, what = pf_outcome(e)
-        if kind == "skip":
-            res.skipped = what
-        else:
-            res.fail(what, error=repr(e)[:300])
-        return None
-    if not net.converged:
-        res.skipped = "not-converged"
-        return None
-    return net
+class Outcome:
+    """result of one round trip: status 'ok' (oracle evaluated), 'skipped' (original not solvable), 'failed' (crash etc.)"""
+    def __init__(self):
+        self.status, self.skipped, self.fails = "ok", None, []
+        self.n_cmp, self.mapped, self.feats, self.n_ppci, self.net = 0, {}, set(), 0, None
 
 
-def roundtrip(res, path, net, recipe, opt, sn):
-    """convert the solved original through `path`, solve the converted net, run the oracle; returns (#buses compared, mapping)"""
+def evaluate(recipe, opt, path, solved=None):
+    """build and solve the original, convert it through `path`, solve the converted net, run the oracle"""
     from pandapower.converter.pypower import to_ppc, from_ppc
     from pandapower.converter.matpower import to_mpc, from_mpc
+    out = Outcome()
+    sn = recipe.get("sn_mva", 1.0)
     f_hz = recipe.get("f_hz", 50.0)
+    net = solved
+    if net is None:
+        net, _ = netgen.build(recipe)
+        try:
+            run_orig(net, opt, sn)
+        except Exception as e:
+            kind, what = pf_outcome(e)
+            if kind == "skip":
+                out.status, out.skipped = "skipped", what
+            else:
+                out.status = "failed"
+                out.fails.append((what, dict(error=repr(e)[:300])))
+            return out
+        if not net.converged:
+            out.status, out.skipped = "skipped", "not-converged"
+            return out
+    out.net = net
+    out.feats = features(net)
+    cls = "+".join(sorted(out.feats)) or "plain"
     kw = dict(calculate_voltage_angles=True, trafo_model="pi", init=opt["init"], check_connectivity=opt["check_connectivity"],
               switch_rx_ratio=opt["switch_rx_ratio"])
-    feats = features(net)
-    if path == "mpc" and has_branch_g(recipe):
-        feats.add("branch-g")
-    cls = "+".join(sorted(feats)) or "plain"
     tmp = None
+    shapes = {}
     try:
         with silence():
             if path == "ppc":
                 ppc = to_ppc(net, **kw)
-                n_ppci = ppc["bus"].shape[0]
                 lookup = net._pd2ppc_lookups["bus"].copy()
+                shapes = {k: ppc[k].shape[0] for k in ("bus", "branch", "gen")}
                 net2 = from_ppc(ppc, f_hz=f_hz)
             else:
                 tmp = tempfile.mkdtemp(prefix="c21_")
                 fn = os.path.join(tmp, "case.mat")
                 mpc = to_mpc(net, fn, **kw)
-                n_ppci = mpc["mpc"]["bus"].shape[0]
                 lookup = net._pd2ppc_lookups["bus"].copy()
+                shapes = {k: mpc["mpc"][k].shape[0] for k in ("bus", "branch", "gen")}
                 net2 = from_mpc(fn, f_hz=f_hz)
     except Exception as e:
-        res.fail("%s/conversion-crash/%s" % (path, exc_sig(e)), error=repr(e)[:300], features=cls)
-        return 0, {}, feats, 0
+        out.status = "failed"
+        single = [k for k in ("bus", "branch") if shapes.get(k) == 1]
+        if path == "mpc" and single and isinstance(e, IndexError):
+            # scipy.io.loadmat(squeeze_me=True) returns a one-row matrix as a vector
+            out.fails.append(("crash/single-row-%s/%s" % ("+".join(single), exc_sig(e)), dict(error=repr(e)[:300], rows=shapes)))
+        else:
+            out.fails.append(("crash/%s" % exc_sig(e), dict(error=repr(e)[:300], rows=shapes, features=cls)))
+        return out
     finally:
         if tmp:
             shutil.rmtree(tmp, ignore_errors=True)
+    out.n_ppci = shapes["bus"]
     try:
         run_conv(net2, sn)
     except Exception as e:
         kind, what = pf_outcome(e)
+        out.status = "failed"
         if kind == "skip" and what == "not-converged":
-            res.fail("%s/converted-net-not-converged/%s" % (path, cls))
+            out.fails.append(("converted-net-not-converged/%s" % cls, {}))
         else:
-            res.fail("%s/converted-net-pf/%s" % (path, what), error=repr(e)[:300])
-        return 0, {}, feats, n_ppci
-    n_cmp, mapped = compare(res, path, net, lookup, n_ppci, net2, sn, feats)
-    return n_cmp, mapped, feats, n_ppci
+            out.fails.append(("converted-net-pf/%s" % what, dict(error=repr(e)[:300])))
+        return out
+    fails, out.n_cmp, out.mapped = compare(net, lookup, out.n_ppci, net2, sn)
+    out.fails = [("%s/%s" % (k, cls), d) for k, d in fails]
+    return out
+
+
+def _has_line_g(r):
+    return any(e["t"] == "line" and e.get("g_us_per_km", 0.0) for e in r["el"])
+
+
+def _no_line_g(r):
+    r = copy.deepcopy(r)
+    for e in r["el"]:
+        if e["t"] == "line":
+            e.pop("g_us_per_km", None)
+    return r
+
+
+def _has_pfe(r):
+    return any(e["t"] in ("trafo", "trafo3w") and e.get("pfe_kw", 0.0) for e in r["el"])
+
+
+def _no_pfe(r):
+    r = copy.deepcopy(r)
+    for e in r["el"]:
+        if e["t"] in ("trafo", "trafo3w"):
+            e["pfe_kw"] = 0.0
+    return r
+
+
+# input features that are removed one after the other from a failing case: a feature whose removal repairs the round trip
+# names the root cause class of the failure (facts about the input and the failing observation only)
+SUSPECTS = [("line-g", _has_line_g, _no_line_g), ("trafo-pfe", _has_pfe, _no_pfe)]
+
+
+def classify(recipe, opt, path, out):
+    """failures of one path -> list of (signature, detail)"""
+    if not out.fails:
+        return []
+    plain = [("%s/%s" % (path, k), d) for k, d in out.fails]
+    if out.status != "ok":
+        return plain
+    removed, r, repaired = [], recipe, False
+    for name, has, strip in SUSPECTS:
+        if has(r):
+            r = strip(r)
+            removed.append(name)
+            o = evaluate(r, opt, path)
+            if o.status == "ok" and not o.fails:
+                repaired = True
+                break
+    if not repaired:
+        return plain
+    needed = [removed[-1]]
+    for name in removed[:-1]:
+        r = recipe
+        for n2, has, strip in SUSPECTS:
+            if n2 in removed and n2 != name:
+                r = strip(r)
+        o = evaluate(r, opt, path)
+        if not (o.status == "ok" and not o.fails):
+            needed.append(name)
+    kinds = sorted({k.split("/")[0] for k, _ in out.fails})
+    return [("%s/results-differ/%s" % (path, n), dict(observed=kinds, first=out.fails[0][1])) for n in sorted(needed)]
 
 
 def check(case):
     res = Result()
     recipe, opt = case["recipe"], case["opt"]
-    sn = recipe.get("sn_mva", 1.0)
     res.label("init:" + opt["init"])
-    net = solve_original(res, recipe, opt, sn)
-    nt = []
+    a = evaluate(recipe, opt, "ppc")
+    if a.status == "skipped":
+        res.skipped = a.skipped
+    for sig, d in classify(recipe, opt, "ppc", a):
+        res.fail(sig, **d)
+    nt = False
+    net = a.net
     if net is not None:
-        n_cmp, mapped, feats, n_ppci = roundtrip(res, "ppc", net, recipe, opt, sn)
-        for f in feats:
+        for f in a.feats:
             res.label(f)
         n_sw_open = int((~net.switch.closed).sum()) if len(net.switch) else 0
-        renumbered = any(b != j for b, j in mapped.items())
+        renumbered = any(b != j for b, j in a.mapped.items())
         if n_sw_open:
             res.label("open-switch")
         if renumbered:
             res.label("ppc-numbering!=labels")
-        if n_ppci != int(net.bus.in_service.sum()):
+        if a.n_ppci != int(net.bus.in_service.sum()):
             res.label("aux-or-fused-or-unsupplied-buses")
         if net.res_bus.vm_pu.isna().any():
             res.label("unsupplied-bus")
@@ -308,21 +372,27 @@ def check(case):
             res.label("out-of-service")
         if len(ref_nodes(net)[1]) > 1:
             res.label("multi-reference")
-        nt.append(n_cmp >= 2 and (bool(feats & {"off-nominal", "shift", "phase-tap"}) or n_sw_open > 0 or renumbered))
-    # MATPOWER file path; the case format has no branch conductance column -> mostly on the variant without line g / iron losses
-    recipe_m = recipe
-    if has_branch_g(recipe):
+        if _has_line_g(recipe):
+            res.label("line-g")
+        if _has_pfe(recipe):
+            res.label("trafo-pfe")
+        nt = a.status == "ok" and a.n_cmp >= 2 and (bool(a.feats & {"off-nominal", "shift", "phase-tap"}) or n_sw_open > 0 or renumbered)
+    # MATPOWER file path. The case format has no branch conductance column -> mostly run on the variant of the network
+    # without line conductance / iron losses (opt.no_branch_g_mat), a minority keeps them
+    recipe_m, solved = recipe, net
+    if _has_line_g(recipe) or _has_pfe(recipe):
         if opt["no_branch_g_mat"]:
-            recipe_m = _strip_g(recipe)
-            res2 = Result()
-            net = solve_original(res2, recipe_m, opt, sn)
-            res.failures.extend(res2.failures)
+            recipe_m, solved = _no_pfe(_no_line_g(recipe)), None
         else:
-            res.label("mpc:branch-g")
-    if net is not None:
-        n_cmp, mapped, feats, n_ppci = roundtrip(res, "mpc", net, recipe_m, opt, sn)
-        nt.append(n_cmp >= 2)
-    res.nontrivial = len(nt) == 2 and all(nt)
-    if nt:
-        res.skipped = None
+            res.label("mpc:with-branch-g")
+    if solved is not None or recipe_m is not recipe:
+        b = evaluate(recipe_m, opt, "mpc", solved=solved)
+        for sig, d in classify(recipe_m, opt, "mpc", b):
+            res.fail(sig, **d)
+        nt = nt and b.status == "ok" and b.n_cmp >= 2
+        if b.status != "skipped":
+            res.skipped = None
+    else:
+        nt = False
+    res.nontrivial = bool(nt)
     return res
